@@ -1192,7 +1192,7 @@ fn run_round(s: &mut Session, rng: &mut Rng, n_cases: usize) {
         let sd = SubsetDefinition::codepoints(cps);
         // patch data for every uri
         let mut pool: HashMap<u32, Vec<u8>> = HashMap::new();
-        let mut full: HashMap<String, Vec<u8>> = HashMap::new();
+        let mut full: BTreeMap<String, Vec<u8>> = BTreeMap::new();
         for i in &infos {
             let compat: [u8; 16] = i.compat.clone().try_into().unwrap_or([0; 16]);
             let bytes = match i.format {
